@@ -47,11 +47,15 @@ def run(ctx):
     # 2. TLC-generated histories (model -> code)
     gens, hists = [], []
     if quick:
-        plans = [("GenSpec", [1, 2], [1, 2], 4, ALL_KINDS, 0), ("DeepSpec", [1, 2], [1, 2], 16, ALL_KINDS, 300)]
+        plans = [("GenSpec", [1, 2], [1, 2], 4, ALL_KINDS, 0),
+                 # account life-cycle / balance alphabet one call deeper (e.g. Suicide; fund again; Snapshot; Suicide; Revert)
+                 ("GenSpec", [1], [1], 5, ["SU", "AB", "TB", "SN"], 0),
+                 ("DeepSpec", [1, 2], [1, 2], 16, ALL_KINDS, 300)]
     else:
         plans = [("GenSpec", [1, 2], [1, 2], 4, ALL_KINDS, 0),
                  ("GenSpec", [1, 2], [1], 5, ["SN", "SD", "SC", "CA", "SU", "AL", "FIN"], 0),
                  ("GenSpec", [1], [1, 2], 5, ["IN", "SD", "SB", "TB", "CA", "SU", "AR", "SR", "AA", "AS", "PRE"], 0),
+                 ("GenSpec", [1], [1], 6, ["SU", "AB", "TB", "SN", "CA", "SB"], 0),
                  ("DeepSpec", [1, 2], [1, 2], 24, ALL_KINDS, 5000)]
     n_exh = 0
     for spec, accts, keys, depth, kinds, runs in plans:
